@@ -138,7 +138,7 @@ uint64_t nParse = 0, nAccepted = 0, nRejected = 0, nAcceptedFields = 0, nAccepte
 struct RunResult { bool accepted = false; bool withFields = false; std::string mustReject; };
 
 // one block, one owner, one parser mode
-RunResult checkBlock(const std::string &block, const bool isRequest, const int relaxed, const std::string &cfg)
+RunResult checkBlock(const std::string &block, const bool isRequest, const int relaxed, const size_t contextFields, const std::string &cfg)
 {
     RunResult rr;
     Config.onoff.relaxed_header_parser = relaxed;
@@ -188,7 +188,7 @@ RunResult checkBlock(const std::string &block, const bool isRequest, const int r
         V::fail(cfg + ": stored fields " + show(got) + " are not the block's name/value pairs " + w + "] " + why);
         return rr;
     }
-    rr.withFields = !got.empty();
+    rr.withFields = got.size() > contextFields; // the token string itself contributed a stored field
     if (rr.withFields) ++nAcceptedFields;
     if (ref.folded) ++nAcceptedFolded;
     if (ref.bareCr) ++nAcceptedBareCr;
@@ -237,7 +237,7 @@ void tokenCase(const std::string &s)
                     if (V::S().nfail != before) break; // one report per case is enough
                     const std::string block = std::string(c.pre) + s + c.post + term;
                     const std::string cfg = std::string(isRequest ? "request" : "reply") + " relaxed=" + (relaxed ? "on" : "off") + " block='" + V::esc(block) + "'";
-                    const RunResult r = checkBlock(block, isRequest, relaxed, cfg);
+                    const RunResult r = checkBlock(block, isRequest, relaxed, (c.pre[0] || c.post[0]) ? 1 : 0, cfg);
                     anyAccepted = anyAccepted || r.accepted;
                     anyFields = anyFields || r.withFields;
                     if (must.empty()) must = r.mustReject;
